@@ -1765,7 +1765,7 @@ func (t *tScreen) parseRune(buf *bytes.Buffer, evs *[]Event) (bool, bool) {
 	return true, false
 }
 
-func (t *tScreen) scanInput(buf *bytes.Buffer, expire bool) {
+func (t *tScreen) scanInput(buf *bytes.Buffer, expire bool, stopQ chan struct{}) {
 	evs := t.collectEventsFromInput(buf, expire)
 	verifPoint("scan-evs", len(evs), buf.Len(), verifBool(expire))
 
@@ -1776,6 +1776,9 @@ func (t *tScreen) scanInput(buf *bytes.Buffer, expire bool) {
 			verifPoint("scan-sent", len(t.eventQ), cap(t.eventQ))
 		case <-t.quit:
 			verifPoint("scan-quit", len(t.eventQ), cap(t.eventQ))
+			return
+		case <-stopQ:
+			// Suspend: the application may not be polling any more
 			return
 		}
 	}
@@ -1909,7 +1912,7 @@ func (t *tScreen) mainLoop(stopQ chan struct{}) {
 			// This lets us detect conflicts such as a lone ESC.
 			if buf.Len() > 0 {
 				if time.Now().After(t.keyexpire) {
-					t.scanInput(buf, true)
+					t.scanInput(buf, true, stopQ)
 				}
 			}
 			if buf.Len() > 0 {
@@ -1926,7 +1929,7 @@ func (t *tScreen) mainLoop(stopQ chan struct{}) {
 			verifPoint("main-chunk", len(chunk), len(t.keychan), cap(t.keychan))
 			buf.Write(chunk)
 			t.keyexpire = time.Now().Add(time.Millisecond * 50)
-			t.scanInput(buf, false)
+			t.scanInput(buf, false, stopQ)
 			if !t.keytimer.Stop() {
 				select {
 				case <-t.keytimer.C:
@@ -1969,14 +1972,20 @@ func (t *tScreen) inputLoop(stopQ chan struct{}) {
 					verifPoint("in-err-sent", len(t.eventQ), cap(t.eventQ))
 				case <-t.quit:
 					verifPoint("in-err-quit")
+				case <-stopQ:
 				}
 			}
 			return
 		}
 		if n > 0 {
 			verifPoint("in-send", len(t.keychan), cap(t.keychan), n)
-			t.keychan <- chunk[:n]
-			verifPoint("in-sent", len(t.keychan), cap(t.keychan))
+			select {
+			case t.keychan <- chunk[:n]:
+				verifPoint("in-sent", len(t.keychan), cap(t.keychan))
+			case <-stopQ:
+				// mainLoop may be gone already: do not wait for room
+				return
+			}
 		}
 	}
 }
